@@ -10,6 +10,9 @@ From HV Require Import Model.Rel Model.RelEnc Model.Histories.
 From HV Require Gen.GData Gen.GInt Gen.GTable Gen.GHuff Gen.GDecoder Gen.GEncoder Gen.GApi Gen.GInit.
 From HV Require Import Proofs.Table Proofs.TableLift Proofs.DecoderRefine.
 From HV Require Import Bridge.B_dec_decode Bridge.B_dec_set_header_table_size Bridge.B_init_Decoder.
+From HV Require Import Model.Exn Bridge.B_exn.
+From HV Require Gen.GExn.
+From Coq Require Import String.
 Import ListNotations.
 Open Scope Z_scope.
 
@@ -57,5 +60,21 @@ Proof.
   exact (decode_documented_history L ops data raw H1 H2).
 Qed.
 
+(** ... stated with the class hierarchy of the source's exceptions.py itself: whatever the translation of
+    Decoder.decode raises, after any history, is caught by `except HPACKDecodingError:` (and by
+    `except HPACKError:`), in the subclass relation that the class headers of exceptions.py define now *)
+Theorem src_C04_family_of_the_source : forall L ops data raw, Z.abs L < 10 ^ 4300 -> Forall sane_op ops ->
+  match fst (GDecoder.Decoder_decode (g_drun ops (GInit.Decoder_init L)) data raw) with
+  | Ok _ => True
+  | Err e => subclass_of (hierarchy GExn.EXC_BASES) (exn_class e) "HPACKDecodingError" = true /\
+             subclass_of (hierarchy GExn.EXC_BASES) (exn_class e) "HPACKError" = true
+  end.
+Proof.
+  intros L ops data raw H1 H2. pose proof (src_C04_every_history L ops data raw H1 H2) as H.
+  destruct (fst (GDecoder.Decoder_decode (g_drun ops (GInit.Decoder_init L)) data raw)) as [x|e]; [exact I|].
+  split; [rewrite <- b_documented_is_family; exact H | exact (proj1 (b_family_is_hpack_error e H))].
+Qed.
+
 Print Assumptions src_C04_decode_documented.
+Print Assumptions src_C04_family_of_the_source.
 Print Assumptions src_C04_every_history.
